@@ -160,11 +160,26 @@ func c04History(c *Case) {
 		// token-level text that ignores typing: evaluations that abort deliberately are part of a history too
 		src = g.TokExpr(1+g.Intn(3), false)
 	}
+	compileFn := safeCompile
+	if c.Index%10 == 7 {
+		// an expression compiled WITH a namespace map, used in turn on documents whose navigator exposes
+		// namespace URIs and on documents whose navigator does not
+		docs = c.docPool("nsdocs", 8, func(dg *xgen.G) *xdoc.Doc { return dg.NSTree(dg.Chance(0.5)) })
+		m := map[string]string{"x": xgen.NSURIs[0], "y": xgen.NSURIs[1], "z": xgen.NSURIs[2], "p": xgen.NSURIs[g.Intn(3)]}
+		elems, attrs := docQNames(docs[g.Intn(len(docs))])
+		var ne xref.Expr = c14Path(g, elems, attrs, []string{"x", "y", "z", "p"}, true)
+		if g.Chance(0.3) {
+			ne = xref.Call{Name: g.Pick("count", "string", "name", "boolean"), Args: []xref.Expr{ne}}
+		}
+		src = xref.Render(ne)
+		compileFn = func(s string) (*xpath.Expr, error) { return xpath.CompileWithNS(s, m) }
+		c.Count("history:namespace-map-two-navigator-kinds")
+	}
 	if xgen.CostEstimateText(src, 130) > xgen.MaxCost*20 {
 		c.Skip("estimated engine cost beyond the bounded workload (see xgen.CostEstimate)")
 		return
 	}
-	used, err := safeCompile(src)
+	used, err := compileFn(src)
 	if err != nil {
 		c.Skip("rejected by Compile (the business of other properties)")
 		return
@@ -207,7 +222,7 @@ func c04History(c *Case) {
 		if g.Chance(0.3) {
 			ctx = d.Root
 		}
-		fresh, ferr := safeCompile(src)
+		fresh, ferr := compileFn(src)
 		if ferr != nil {
 			panic("C04: second compilation rejected")
 		}
